@@ -31,6 +31,8 @@ def jobs_for(tier):
     for t in tpls:
         jobs.append(dict(id='%s/oer' % t['id'], template=t['id'], codec='oer', tier=tier, numeric_enums=False))
     jobs.append(dict(id='kernel/oer-int-range', kernel='oer-int-range', tier=tier, codec='oer', numeric_enums=False, W=256))
+    for k in ('set-symbolic-tags', 'choice-symbolic-tags'):
+        jobs.append(dict(id='kernel/' + k, kernel=k, tier=tier, codec='oer', numeric_enums=False, W=256))
     return jobs
 
 
@@ -38,7 +40,99 @@ def beq(a, b):
     return to_z3bool(SymBytes(a) == b)
 
 
+TAG_TEXT = {
+    'set-symbolic-tags': ('T DEFINITIONS IMPLICIT TAGS ::= BEGIN\nA ::= SET { a [1] INTEGER (0..7), b [2] BOOLEAN, '
+                          'c [3] NULL }\nEND\n'),
+    'choice-symbolic-tags': ('T DEFINITIONS IMPLICIT TAGS ::= BEGIN\nA ::= CHOICE { a [1] INTEGER (0..7), b [2] BOOLEAN, '
+                             'c [3] NULL }\nEND\n'),
+}
+TAG_CLASSES = ['CONTEXT', 'APPLICATION', 'PRIVATE']
+
+
+def make_tag_kernel(job):
+    """SET / CHOICE with SYMBOLIC tag numbers and classes: the real OER compiler runs on solver
+    variables (canonical order of SET components, tag octets of CHOICE alternatives incl. the
+    62/63 and base-128 boundaries)"""
+    import copy
+    from lib.bits import BitBuf
+    base = asn1tools.parse_string(TAG_TEXT[job['kernel']])
+    top = (1 << 21) if job['tier'] == 'thorough' else (1 << 15)
+    is_set = job['kernel'].startswith('set')
+
+    def harness(ctx):
+        with shimmed(C.CODEC_MODS):
+            parsed = copy.deepcopy(base)
+            members = parsed['T']['types']['A']['members']
+            tags = []
+            for i, m in enumerate(members):
+                cls = TAG_CLASSES[ctx.choose('class%d' % i, 2 if i < 2 else 3)]
+                num = ctx.int('tag%d' % i, 0, top)
+                m['tag'] = {'number': num, 'class': cls}
+                tags.append((cls, num))
+            for i in range(len(tags)):
+                for j in range(i):
+                    if tags[i][0] == tags[j][0]:
+                        ctx.assume(tags[i][1] != tags[j][1])
+            if is_set:
+                v = {'a': ctx.int('a', 0, 7), 'b': ctx.flag('b'), 'c': None}
+            else:
+                k = ctx.choose('alt', 3)
+                v = [('a', ctx.int('a', 0, 7)), ('b', True), ('c', None)][k]
+            ctx.describe = lambda m: {'tags': [(c, (m.eval(n.e, model_completion=True).as_signed_long()
+                                                    if hasattr(n, 'e') else n)) for c, n in tags],
+                                      'value': jsonable(concretize(v, m))}
+            try:
+                spec = asn1tools.compile_dict(parsed, 'oer')
+                enc = spec.types['A'].encode(v)
+            except Inconclusive:
+                raise
+            except Exception as e:
+                ctx.violation('kernel-raises', '%s: %s' % (type(e).__name__, str(e)[:100]))
+                return
+            buf = BitBuf()
+            x696.Model(parsed, False).encode(buf, {'type': 'A'}, 'T', v)
+            ref = buf.symbytes()
+            if len(ref) != len(enc):
+                ctx.violation('kernel-length-differs-from-X.696', 'library %d octets, model %d' % (len(enc), len(ref)))
+                return
+            if not ctx.prove('kernel-tags-equal-X.696', SymBytes(enc) == ref):
+                return
+            try:
+                dec = spec.types['A'].decode(ref)
+            except Inconclusive:
+                raise
+            except Exception as e:
+                ctx.violation('kernel-decoder-rejects-model-octets', '%s: %s' % (type(e).__name__, str(e)[:100]))
+                return
+            ctx.note('kernel-proved')
+    return harness
+
+
+def replay_tag_kernel(v):
+    inp = v['witness']['inputs']
+    kind = 'SET' if v['job']['kernel'].startswith('set') else 'CHOICE'
+    body = ', '.join('%s [%s%d] %s' % (n, '' if c == 'CONTEXT' else c + ' ', num, t) for (c, num), (n, t) in zip(
+        inp['tags'], [('a', 'INTEGER (0..7)'), ('b', 'BOOLEAN'), ('c', 'NULL')]))
+    text = 'T DEFINITIONS IMPLICIT TAGS ::= BEGIN\nA ::= %s { %s }\nEND\n' % (kind, body)
+    value = unjson(inp['value'])
+    spec = asn1tools.compile_string(text, 'oer')
+    want = x696.encode(asn1tools.parse_string(text), 'T', 'A', value).concrete()
+    try:
+        got = bytes(spec.encode('A', value))
+    except Exception as e:
+        return True, '%s { %s } value %r: encode raised %s: %s' % (kind, body, value, type(e).__name__, str(e)[:80])
+    if got != want:
+        return True, '%s { %s } value %r: library %s, X.696 %s' % (kind, body, value, got.hex(), want.hex())
+    try:
+        back = spec.decode('A', want)
+    except Exception as e:
+        return True, '%s { %s }: decode(%s) raised %s: %s' % (kind, body, want.hex(), type(e).__name__, str(e)[:80])
+    return False, 'agrees with the model: %s' % got.hex()
+
+
 def make_kernel_harness(job):
+    if job['kernel'].endswith('symbolic-tags'):
+        return make_tag_kernel(job)
     from lib import kernels_int
 
     def harness(ctx):
@@ -64,6 +158,8 @@ def make_kernel_harness(job):
 
 def replay_kernel(v):
     """INTEGER (lo..hi) of the witness through the public API against the model"""
+    if v['job']['kernel'].endswith('symbolic-tags'):
+        return replay_tag_kernel(v)
     s = v['witness']['vars']
     lo, hi, val = s['lo'], s['hi'], s['v']
     text = 'T DEFINITIONS AUTOMATIC TAGS ::= BEGIN A ::= INTEGER (%d..%d) END' % (lo, hi)
